@@ -10,8 +10,9 @@
 
    Operations `ops` range over: Call h (any handle: a valid argument, another species, a returned molecule),
    CallNonMolecule, PokeRef / PokeTgt (coordinates of the construction molecules), PokeObj (coordinates of any
-   handle: a previous argument or a previously returned molecule).  Renaming atoms / residues / molecules is not
-   an operation (the property speaks of coordinates). *)
+   handle: a previous argument or a previously returned molecule), RenumRef / RenumTgt / RenumObj (`mol.resids =
+   [...]`: residue numbers, gro and topology, of a construction molecule or of any handle, e.g. a molecule sharing
+   the reference's topology).  Renaming atoms / residues / molecules is not an operation. *)
 From Coq Require Import String.
 From Coq Require Import List ZArith PrimFloat.
 Import ListNotations.
@@ -109,10 +110,13 @@ Theorem C04_fresh_equal :
 Proof. exact fresh_equal. Qed.
 Print Assumptions C04_fresh_equal.
 
-(* --- a valid argument stays valid whatever happens (so C04_history applies after every history), provided
-   the target's topology is not the same object as the reference's / the argument's topology: a call writes
-   top_resid of the TARGET's topology (C04_pure), which Molecule.__eq__ reads.  Without the proviso the real
-   code changes its verdict (docs/design_notes/C04.md, F3). *)
+(* --- a valid argument stays valid under calls, rejected calls, coordinate changes and renumbering of the
+   target (so C04_history applies after every such history), provided the target's topology is not the same
+   object as the reference's / the argument's topology: a call writes top_resid of the TARGET's topology
+   (C04_pure), which Molecule.__eq__ reads.  Without the proviso the real code changes its verdict
+   (docs/design_notes/C04.md, F3).  Renumbering the reference or a molecule sharing its topology (RenumRef,
+   RenumObj) legitimately changes what the species IS (top_resid is part of Molecule.__eq__): after those the
+   verdict is the one of a map built at that moment, C04_verdict_fresh_now. *)
 Theorem C04_valid_stable :
   forall (vec fr : Type) (frames_of : graph -> list vec -> res (list (nat * fr)))
     (project_all : list (nat * fr) -> list vec -> list vec -> res (list (nat * vec)))
@@ -126,10 +130,37 @@ Theorem C04_valid_stable :
   mol_graph vec hp ref = Ok g0 ->
   (forall l, In l (m_top tgt) -> ~ In l (m_top ref) /\ ~ In l (m_top arg)) ->
   mol_eq vec hp ref arg = Ok v ->
-  forall ops : list (op vec),
+  forall ops : list (op vec), Forall (no_foreign_renum vec) ops ->
   mol_eq vec (s_heap (run vec fr frames_of restore st0 ops)) ref arg = Ok v.
 Proof. exact valid_stable. Qed.
 Print Assumptions C04_valid_stable.
+
+(* --- the accept / reject decision consults nothing stored in the map: after ANY history (renumbering of the
+   construction molecules and of molecules sharing their topology included) it is the decision of a map built at
+   that moment, in the current world, from the same reference molecule; a rejected handle gets TypeError from
+   both.  (For an accepted handle C04_history gives the result.) *)
+Theorem C04_verdict_fresh_now :
+  forall (vec fr : Type) (frames_of : graph -> list vec -> res (list (nat * fr)))
+    (project_all : list (nat * fr) -> list vec -> list vec -> res (list (nat * vec)))
+    (restore : fr -> vec -> vec),
+  (forall g ps frs, frames_of g ps = Ok frs -> map fst frs = anchors g) ->
+  (forall rs ps tps ec, project_all rs ps tps = Ok ec ->
+     forall ac, In ac ec -> In (fst ac) (map fst rs)) ->
+  forall (hp : heap vec) (objs : list mol) (ref tgt : mol) (st0 : state vec fr) (g0 : graph)
+    (tgt2 : mol) (stf : state vec fr),
+  build vec fr frames_of project_all hp objs ref tgt = Ok st0 ->
+  mol_graph vec hp ref = Ok g0 ->
+  forall ops : list (op vec),
+  let st := run vec fr frames_of restore st0 ops in
+  build vec fr frames_of project_all (s_heap st) (s_objs st) ref tgt2 = Ok stf ->
+  forall (h : nat) (arg : mol), nth_error (s_objs st) h = Some arg ->
+  nth_error (s_objs stf) h = Some arg /\
+  mol_eq vec (s_heap stf) (e_ref (s_map stf)) arg = mol_eq vec (s_heap st) (e_ref (s_map st)) arg /\
+  (mol_eq vec (s_heap st) (e_ref (s_map st)) arg = Ok false ->
+     snd (step vec fr frames_of restore st (Call h)) = OCall (Err EType) /\
+     snd (step vec fr frames_of restore stf (Call h)) = OCall (Err EType)).
+Proof. exact verdict_fresh_now. Qed.
+Print Assumptions C04_verdict_fresh_now.
 
 (* --- the keys of _refsystems are the species' anchors after every history in which every accepted argument
    has the species' bond graph (Molecule.__eq__ does not compare bonds: design note, F1) *)
@@ -241,7 +272,8 @@ Print Assumptions C04_core_proj.
 (* --- non-vacuity: a concrete world (binary64 core): reference A0-A1-A2 (anchor 1), target of two atoms in two
    residues with its own topology, one argument = copy of the reference (shared topology) elsewhere with its
    own gro residue numbers, one molecule of another name.  After the history
-   [call arg; poke ref; non-molecule; call other; poke target; poke the returned molecule]
+   [call arg; poke ref; non-molecule; call other; poke target; poke the returned molecule; renumber the
+   reference (the argument shares its topology and stays valid); renumber the target]
    every hypothesis of C04_history / C04_valid_stable / C04_keys holds and the call returns a molecule. *)
 Local Open Scope string_scope.
 Example C04_nonvacuous :
@@ -263,7 +295,8 @@ Example C04_nonvacuous :
   let fo := @c_frames_of float FScalar in
   let pa := @c_project_all float FScalar 0.5%float in
   let rs := @c_restore float FScalar in
-  let ops := [Call 0; PokeRef 1 (p 9 9 9); CallNonMolecule; Call 1; PokeTgt 0 (p 2 2 2); PokeObj 2 0 (p 7 7 7)] in
+  let ops := [Call 0; PokeRef 1 (p 9 9 9); CallNonMolecule; Call 1; PokeTgt 0 (p 2 2 2); PokeObj 2 0 (p 7 7 7);
+              RenumRef [3%Z; 4%Z]; RenumTgt [11%Z; 12%Z]] in
   let g0 := [[1]; [0; 2]; [1]] in
   match build V (frame float) fo pa hp [arg; other] ref tgt with
   | Err _ => False
